@@ -302,6 +302,15 @@ def run(ctx):
         for i1, i2, c1, c2 in itertools.product(range(lo, lo + 4), range(lo, lo + 4), (False, True), (False, True)):
             ls = [outer, " " * i1 + "- b"] + (["", " " * (i1 + 2) + "b2"] if c1 else []) + [" " * i2 + "- c"] + (["", " " * (i2 + 2) + "c2"] if c2 else [])
             nested.append("\n".join(ls) + "\n")
+    # list items that hold a multi-line inline element and a second paragraph, followed by items with wide marker spacing:
+    # the documents on which MD030 / MD027 count source lines per item
+    for m, pad in (("-", "  "), ("1.", "   "), ("> -", "> " + "  ")):
+        qp = "> " if m.startswith(">") else ""
+        for ml in ("`x\n{p}y`", "*x\n{p}y*", "[x\n{p}y](/u)", "<b\n{p}c='d'>", "x\\\n{p}y"):
+            for wide in ("   ", "  "):
+                body = ml.replace("{p}", pad)
+                nested.append(f"{m} a {body} b\n{qp}\n{pad}c\n{m}{wide}d\n{qp}\n{pad}{wide[:-1]}f\n{m} g\n")
+                nested.append(f"{m} a {body} b\n{m}{wide}d\n{m} g\n")
     nested = [d for d in gen.uniq(nested)]
     base = list(gen.uniq(base + nested))
     extra = gen.sample(list(gen.d_line(pr_lines, 5, final_newline=(True,))), 4000, 31)[:4000 if ctx.tier == "thorough" else 700]
@@ -314,7 +323,7 @@ def run(ctx):
     if ctx.tier == "quick":
         rnd = random.Random(ctx.seed)
         space = [(d, configs[0]) for d in docs] + [(d, rnd.choice(configs[1:])) for d in rnd.sample(base, min(len(base), 1500))]
-        space += [(d, c) for d in nested for c in configs[1:] if c[0] in ("only:md005", "only:md006", "only:md007")]
+        space += [(d, c) for d in nested for c in configs[1:] if c[0] in ("only:md005", "only:md006", "only:md007", "only:md030", "only:md027")]
         space = list({(d, c[0]): (d, c) for d, c in space}.values())
     else:
         space = [(d, configs[0]) for d in docs] + [(d, c) for d in base for c in configs[1:]]
@@ -338,7 +347,7 @@ def run(ctx):
     ]
     return ctx.finish(
         level="proof",
-        rule="(A) random replacement cases drawn from one seed; (B) documents (pool, trigger documents, 2-3-line documents over the general vocabulary, 128 nested lists at every small indentation with/without continuation paragraphs, 5-line documents with pragma lines, repository corpus) under the default rule set and under each fix-capable rule alone; quick = seed-selected subset; non-trivial = a run in which fix changed the file; distinct by (document, configuration)",
+        rule="(A) random replacement cases drawn from one seed; (B) documents (pool, trigger documents, 2-3-line documents over the general vocabulary, 128 nested lists at every small indentation with/without continuation paragraphs and 60 lists whose items hold a multi-line inline element, a second paragraph and wide marker spacing, 5-line documents with pragma lines, repository corpus) under the default rule set and under each fix-capable rule alone; quick = seed-selected subset; non-trivial = a run in which fix changed the file; distinct by (document, configuration)",
         assumptions=["a fix run that ends in an application error is C09's and C15's business", "documents are compared through markdown-it-py only"],
         extra_cov={"exhaustive": False},
     )
